@@ -82,6 +82,9 @@ func c11Check2(cs []tcue, warm bool) string {
 	snaps := make([]string, len(cs))
 	for k, c := range cs {
 		it := textItem(time.Duration(c.S), time.Duration(c.E), c.T)
+		if c.T == "" {
+			it.Lines = nil // a cue without any line (an image-only or cleared cue): its text is the empty text
+		}
 		if strings.Contains(c.T, "\n") {
 			// a multi-line cue (roll-up captions share their first lines)
 			it.Lines = nil
@@ -229,6 +232,9 @@ func c11Random(r *fw.Rand) ([]tcue, int64) {
 	} else if r.P(1, 8) {
 		// texts that differ only in case, in trailing white space, in a combining sequence or in the line split
 		texts = fw.Pick(r, [][]string{{"Hello", "hello"}, {"Hello", "Hello "}, {"\u00e9t\u00e9", "e\u0301te\u0301"}, {"a\nb", "a b", "ab"}, {"a\n", "a"}})
+	}
+	if r.P(1, 6) {
+		texts = append(append([]string(nil), texts...), "") // cues without lines among the others
 	}
 	cs := make([]tcue, n)
 	for i := range cs {
